@@ -214,6 +214,68 @@ func c07Families(tier string) []explore.Family {
 			}
 		}})
 	}
+	// scaled: the failing construct after 9..5000 lines and inside 5..40 nested blocks
+	lines := []int{9, 10, 11, 99, 100, 101, 255, 256, 257, 999, 1000, 1001, 4999, 5000}
+	depths := []int{0, 5, 8, 9, 10, 16, 17, 33, 40}
+	kinds := []int{}
+	for ki, k := range c07Kinds {
+		switch k.name {
+		case "object-syntax", "unknown-tag", "filter-own-error", "type-error", "unterminated-block", "stray-end-tag", "division-by-zero", "unterminated-comment", "filter-own-error-in-if":
+			kinds = append(kinds, ki)
+		}
+	}
+	fams = append(fams, explore.Family{Name: "scaled", Count: int64(len(lines) * len(depths) * len(kinds) * len(c07Locs)), Run: func(i int64, r *explore.Rec) {
+		rx := radix{i}
+		loc, kind, d, nl := c07Locs[rx.next(len(c07Locs))], c07Kinds[kinds[rx.next(len(kinds))]], depths[rx.next(len(depths))], lines[rx.next(len(lines))]
+		var sb strings.Builder
+		// newlines are spread: some as plain text, some inside tags, some between the nested openers
+		sb.WriteString(strings.Repeat("text\n", nl/2))
+		sb.WriteString("{% assign\nz\n=\n1 %}") // 3 newlines inside a tag
+		rest := nl - nl/2 - 3
+		for j := 0; j < d; j++ {
+			f := c07Forms[j%len(c07Forms)]
+			sb.WriteString(f.open)
+			if rest > 0 {
+				sb.WriteString("\n")
+				rest--
+			}
+		}
+		sb.WriteString(strings.Repeat("\n", rest))
+		offset := sb.Len()
+		sb.WriteString(kind.src + kind.body + "\ntail\n")
+		if !kind.unclosed {
+			sb.WriteString(kind.tail)
+			for j := d - 1; j >= 0; j-- {
+				sb.WriteString("\n" + c07Forms[j%len(c07Forms)].close)
+			}
+		}
+		src := sb.String()
+		wantLine := loc.line + strings.Count(src[:offset], "\n")
+		r.Eval()
+		r.Transition()
+		var err liquid.SourceError
+		var out []byte
+		p := explore.Safe(func() {
+			tpl, perr := c07.eng.ParseTemplateLocation([]byte(src), loc.path, loc.line)
+			if perr != nil {
+				err = perr
+				return
+			}
+			out, err = tpl.Render(map[string]any{})
+		})
+		desc := func() any {
+			return map[string]any{"failing_construct": kind.src, "kind": kind.name, "newlines_before_it": nl, "nesting_depth": d, "path": loc.path, "start_line": loc.line}
+		}
+		switch {
+		case p != nil:
+			r.Violation(p.Key(), desc(), "a SourceError", p.Value)
+		case err == nil:
+			r.Violation("L1:no-error:"+kind.name, desc(), "a SourceError", trunc80(string(out)))
+		case err.LineNumber() != wantLine || err.Path() != loc.path:
+			r.Violation("L2:line:scaled:"+kind.name, desc(), fmt.Sprintf("line %d path %q", wantLine, loc.path), fmt.Sprintf("line %d path %q: %s", err.LineNumber(), err.Path(), trunc80(safeErr(err))))
+		}
+		r.Class("scaled/" + kind.name)
+	}})
 	return fams
 }
 
@@ -266,7 +328,7 @@ func init() {
 		ID:    "C07",
 		Level: "exploration",
 		Rule: "24 kinds of failing construct (syntax error in object / tag arguments, unknown tag, unknown filter, filter's own error in object/assign/if, division by zero, type error, strict undefined variable, unterminated blocks, stray end/clause tags, include of a missing file / non-string, bad cycle) placed in the taken body of every nesting path of depth 0..2 (quick) / 0..3 (thorough) over 7 enclosing forms, " +
-			"with 0/1/2 newlines + filler independently before every opener and before the construct, with and without a newline inside every opener tag, parsed with path in {none, dir/t.html} x start line in {0,1,7}, through ParseTemplateLocation+Render and ParseAndRender; " +
+			"with 0/1/2 newlines + filler independently before every opener and before the construct, with and without a newline inside every opener tag, parsed with path in {none, dir/t.html} x start line in {0,1,7}, through ParseTemplateLocation+Render and ParseAndRender; scaled: 9 kinds after 9..5000 newlines (in text, inside tags, between openers) and inside 0..40 nested blocks; " +
 			"class = (kind, fails at parse time); distinct_nontrivial counts distinct classes",
 		Assumptions: []string{
 			"the failing construct of an unterminated block is the innermost unclosed opening tag; of a stray end/clause tag, that tag; of a missing include, the include tag",
